@@ -12,419 +12,7 @@ package main
 // other's siblings); atan2(x, y) with bare coordinates is off by π for N < 0.
 
 import (
-	"go/ast"
-	"go/token"
-	"go/types"
 	"regexp"
-	"sort"
 )
 
 var parallelSym = regexp.MustCompile(`\bp[12]\b`)
-
-// coneFollowsParallels evaluates the constructor on a reference parsed from symbolic parameters
-// (standard parallels p1, p2) and reads the captured variable out of the inverse closure's
-// environment: does its term mention a standard parallel?  known is false when the model cannot
-// tell (the caller then keeps the constructor in the family).
-func coneFollowsParallels(c *Ctx, reg *projReg, ctor *types.Func, coneN types.Object) (dep, known bool) {
-	var names []string
-	for n, f := range reg.names {
-		if f == ctor {
-			names = append(names, n)
-		}
-	}
-	if len(names) == 0 {
-		return false, false
-	}
-	sort.Strings(names)
-	m, parse := newC20m(c)
-	if m == nil {
-		return false, false
-	}
-	sr, why := m.run(parse, "+proj="+names[0]+" +lat_1=P1 +lat_2=P2 +lat_0=P3 +lon_0=P4 +x_0=P5 +y_0=P6 +k_0=P13 +a=P7 +rf=P8 +no_defs")
-	if why != "" {
-		return false, false
-	}
-	c.Evals(1)
-	res, why := m.it.Call(ctor, nil, []oval{oPtr{sr}}, 0)
-	if why != "" || len(res) < 2 {
-		return false, false
-	}
-	fn, ok := res[1].(oFunc)
-	if !ok || fn.env == nil {
-		return false, false
-	}
-	cell := fn.env.lookup(coneN)
-	if cell == nil {
-		return false, false
-	}
-	p, ok := symOf(*cell)
-	if !ok {
-		return false, false
-	}
-	return parallelSym.MatchString(p.canon()), true
-}
-
-func c08conic(c *Ctx) {
-	p := c.P.Pkg("proj")
-	info := p.TypesInfo
-	reg := projRegistry(c)
-	members := 0
-	for _, ctor := range reg.ctors {
-		fd := c.P.Decl(ctor)
-		if fd == nil {
-			continue
-		}
-		rs := resultVars(info, fd.Type)
-		if len(rs) < 2 || rs[1] == nil {
-			continue
-		}
-		// the inverse closure literal(s)
-		var lits []*ast.FuncLit
-		ast.Inspect(fd.Body, func(n ast.Node) bool {
-			if as, ok := n.(*ast.AssignStmt); ok {
-				for i, l := range as.Lhs {
-					if objOf(info, l) == rs[1] && i < len(as.Rhs) {
-						if fl, ok := unparen(as.Rhs[i]).(*ast.FuncLit); ok {
-							lits = append(lits, fl)
-						}
-					}
-				}
-			}
-			return true
-		})
-		for _, lit := range lits {
-			sc := newFnScope(info, lit.Body)
-			local := func(o types.Object) bool { return o != nil && o.Pos() >= lit.Pos() && o.Pos() <= lit.End() }
-			// θ/N with N captured
-			var coneN types.Object
-			var thetaObj types.Object
-			var helperCall *ast.CallExpr
-			ast.Inspect(lit.Body, func(n ast.Node) bool {
-				b, ok := n.(*ast.BinaryExpr)
-				if !ok || b.Op != token.QUO {
-					return true
-				}
-				t, nn := objOf(info, b.X), objOf(info, b.Y)
-				if t == nil || nn == nil || !local(t) || local(nn) || !isFloat64(nn.Type()) {
-					return true
-				}
-				if _, isVar := nn.(*types.Var); !isVar || nn.Pkg() == nil || nn.Parent() == nn.Pkg().Scope() {
-					return true
-				}
-				// θ defined by Atan2, directly or inside a helper that returns it
-				for _, d := range sc.defs[t] {
-					if call, ok := unparen(d).(*ast.CallExpr); ok && d != nil {
-						if isFuncIn(callee(info, call), "math", "Atan2") {
-							coneN, thetaObj = nn, t
-						} else if h := callee(info, call); h != nil && c.P.Decl(h) != nil && callsAtan2(c, info, h) {
-							coneN, thetaObj, helperCall = nn, t, call
-						}
-					}
-				}
-				return true
-			})
-			if coneN == nil {
-				continue
-			}
-			// the divisor is a cone constant only if it follows the standard parallels: its term,
-			// when the constructor is evaluated on symbolic parameters, mentions them (a captured
-			// numeric constant — Krovak's fixed cone — never changes sign)
-			if dep, known := coneFollowsParallels(c, reg, ctor, coneN); known && !dep {
-				continue
-			}
-			members++
-			cons := c.P.FuncName(ctor) + "#inverse-cone-sign"
-			if helperCall != nil {
-				c08conicHelper(c, info, cons, helperCall, coneN)
-				continue
-			}
-			var call *ast.CallExpr
-			for _, d := range sc.defs[thetaObj] {
-				if cl, ok := unparen(d).(*ast.CallExpr); ok && d != nil && isFuncIn(callee(info, cl), "math", "Atan2") {
-					call = cl
-				}
-			}
-			// argument shapes
-			var signVars []types.Object
-			bare := 0
-			for _, arg := range call.Args {
-				m, ok := unparen(arg).(*ast.BinaryExpr)
-				if ok && m.Op == token.MUL {
-					for _, f := range []ast.Expr{m.X, m.Y} {
-						if o := objOf(info, f); o != nil && local(o) {
-							if isSignVar(info, sc, lit, o, coneN, call.Pos()) {
-								signVars = append(signVars, o)
-							}
-						}
-					}
-					continue
-				}
-				if o := objOf(info, arg); o != nil {
-					bare++
-				}
-			}
-			switch {
-			case len(signVars) == 2 && signVars[0] == signVars[1]:
-				c.OK("C08.R5", cons, call.Pos(), "θ = atan2(%s·x, %s·y) with %s = ±1 following the sign of the cone constant %s", signVars[0].Name(), signVars[0].Name(), signVars[0].Name(), coneN.Name())
-			case bare == 2:
-				c.Bad("C08.R5", cons, call.Pos(), "`%s` takes the polar angle of the bare coordinates, but the result is divided by the cone constant %s, which is negative for standard parallels in the southern hemisphere: there the forward closure yields a negative radius, the angle comes back off by π and the longitude by π/%s (the sibling conic projections multiply both arguments by ±1 according to the sign of their constant)", src(call), coneN.Name(), coneN.Name())
-			default:
-				c.Unk("C08.R5", cons, call.Pos(), "`%s`: arguments are neither both sign-corrected nor both bare coordinates", src(call))
-			}
-		}
-	}
-	if members == 0 {
-		c.Unk("C08.R5", "proj#conic-family", token.NoPos, "no inverse closure of the form lon = atan2(…)/N + … found")
-	}
-}
-
-// isSignVar: inside the closure o only ever holds the constants +1 and −1, and after all of its
-// definitions it is +1 when the cone constant is positive and −1 when it is negative.  The
-// definitions are replayed in source order for the two scenarios N > 0 and N < 0; each may be
-// unconditional or sit under (possibly nested, negated, else-side) tests of N against zero.
-func isSignVar(info *types.Info, sc *fnScope, lit *ast.FuncLit, o, coneN types.Object, use token.Pos) bool {
-	// truth of a condition in scenario sign (+1: N > 0, −1: N < 0); ok=false: not a test of N's sign
-	var truth func(e ast.Expr, sign int) (bool, bool)
-	truth = func(e ast.Expr, sign int) (bool, bool) {
-		e = unparen(e)
-		if u, ok := e.(*ast.UnaryExpr); ok && u.Op == token.NOT {
-			t, ok := truth(u.X, sign)
-			return !t, ok
-		}
-		b, ok := e.(*ast.BinaryExpr)
-		if !ok {
-			return false, false
-		}
-		op := b.Op
-		x, y := b.X, b.Y
-		if objOf(info, y) == coneN {
-			// 0 < N  ≡  N > 0
-			x, y = y, x
-			op = map[token.Token]token.Token{token.LSS: token.GTR, token.GTR: token.LSS, token.LEQ: token.GEQ, token.GEQ: token.LEQ}[op]
-		}
-		if objOf(info, x) != coneN {
-			return false, false
-		}
-		if v := constOf(info, y); v == nil || (v.String() != "0" && v.String() != "0.0") {
-			return false, false
-		}
-		switch op {
-		case token.GTR, token.GEQ:
-			return sign > 0, true
-		case token.LSS, token.LEQ:
-			return sign < 0, true
-		}
-		return false, false
-	}
-	type def struct {
-		node ast.Node
-		val  string
-	}
-	var defs []def
-	ast.Inspect(lit.Body, func(n ast.Node) bool {
-		switch x := n.(type) {
-		case *ast.AssignStmt:
-			for i, l := range x.Lhs {
-				if objOf(info, l) == o {
-					v := "?"
-					if i < len(x.Rhs) && len(x.Lhs) == len(x.Rhs) && x.Tok != token.ADD_ASSIGN && x.Tok != token.MUL_ASSIGN {
-						if cv := constOf(info, x.Rhs[i]); cv != nil {
-							v = cv.String()
-						}
-					}
-					defs = append(defs, def{x, v})
-				}
-			}
-		case *ast.ValueSpec:
-			for i, nm := range x.Names {
-				if info.Defs[nm] == o {
-					v := "unset"
-					if i < len(x.Values) {
-						v = "?"
-						if cv := constOf(info, x.Values[i]); cv != nil {
-							v = cv.String()
-						}
-					}
-					defs = append(defs, def{x, v})
-				}
-			}
-		}
-		return true
-	})
-	// only what reaches the use: definitions after it (the variable may be reused) do not count
-	var before []def
-	for _, d := range defs {
-		if d.node.Pos() < use {
-			before = append(before, d)
-		}
-	}
-	defs = before
-	if len(defs) == 0 {
-		return false
-	}
-	final := map[int]string{}
-	for _, sign := range []int{1, -1} {
-		cur := "unset"
-		for _, d := range defs {
-			reached := true
-			for _, anc := range enclosing(lit.Body, d.node) {
-				is, ok := anc.(*ast.IfStmt)
-				if !ok {
-					if _, isLoop := anc.(*ast.ForStmt); isLoop {
-						return false
-					}
-					continue
-				}
-				if containsNode(is.Cond, d.node) || (is.Init != nil && containsNode(is.Init, d.node)) {
-					continue
-				}
-				t, ok := truth(is.Cond, sign)
-				if !ok {
-					return false // set under a condition that is not the sign of the cone constant
-				}
-				if containsNode(is.Body, d.node) != t {
-					reached = false
-				}
-			}
-			if reached {
-				cur = d.val
-			}
-		}
-		final[sign] = cur
-	}
-	one := func(v string) bool { return v == "1" || v == "1.0" }
-	minusOne := func(v string) bool { return v == "-1" || v == "-1.0" }
-	return one(final[1]) && minusOne(final[-1])
-}
-
-func callsAtan2(c *Ctx, info *types.Info, h *types.Func) bool {
-	found := false
-	ast.Inspect(c.P.Decl(h).Body, func(n ast.Node) bool {
-		if call, ok := n.(*ast.CallExpr); ok && isFuncIn(callee(info, call), "math", "Atan2") {
-			found = true
-		}
-		return !found
-	})
-	return found
-}
-
-// c08conicHelper: the polar angle is computed in a helper h(…, flag) called with flag = (N ≥ 0) or
-// (N > 0); inside, atan2's arguments carry a factor that is +1 when the flag is true and −1 otherwise.
-func c08conicHelper(c *Ctx, info *types.Info, cons string, call *ast.CallExpr, coneN types.Object) {
-	h := callee(info, call)
-	hfd := c.P.Decl(h)
-	ps := paramVars(info, hfd.Type)
-	// which bool parameter receives the sign test of the cone constant?
-	var flag types.Object
-	for i, arg := range call.Args {
-		b, ok := unparen(arg).(*ast.BinaryExpr)
-		if !ok || i >= len(ps) || ps[i] == nil {
-			continue
-		}
-		if objOf(info, b.X) == coneN && (b.Op == token.GEQ || b.Op == token.GTR) {
-			if v := constOf(info, b.Y); v != nil && v.String() == "0" {
-				flag = ps[i]
-			}
-		}
-	}
-	if flag == nil {
-		c.Bad("C08.R5", cons, call.Pos(), "`%s` computes the polar angle in a helper that is not told the sign of the cone constant %s: for a negative constant the angle is off by π", src(call), coneN.Name())
-		return
-	}
-	sc := newFnScope(info, hfd.Body)
-	var at2 *ast.CallExpr
-	ast.Inspect(hfd.Body, func(n ast.Node) bool {
-		if cl, ok := n.(*ast.CallExpr); ok && isFuncIn(callee(info, cl), "math", "Atan2") {
-			at2 = cl
-		}
-		return true
-	})
-	// the sign variable: constant ±1 definitions, −1 exactly where the flag is false
-	signOK := func(o types.Object) bool {
-		ds := sc.defs[o]
-		if len(ds) == 0 {
-			return false
-		}
-		plus, minus := false, false
-		okAll := true
-		ast.Inspect(hfd.Body, func(n ast.Node) bool {
-			as, ok := n.(*ast.AssignStmt)
-			if !ok {
-				if vs, ok := n.(*ast.ValueSpec); ok {
-					for i, nm := range vs.Names {
-						if info.Defs[nm] == o && i < len(vs.Values) {
-							if v := constOf(info, vs.Values[i]); v != nil && v.String() == "1" {
-								plus = true
-							}
-						}
-					}
-				}
-				return true
-			}
-			for i, l := range as.Lhs {
-				if objOf(info, l) != o || i >= len(as.Rhs) {
-					continue
-				}
-				v := constOf(info, as.Rhs[i])
-				if v == nil {
-					okAll = false
-					continue
-				}
-				// under which condition on the flag?
-				cond := 0 // +1: flag true, -1: flag false, 0: unconditional
-				for _, anc := range enclosing(hfd.Body, as) {
-					is, ok := anc.(*ast.IfStmt)
-					if !ok {
-						continue
-					}
-					inBody := containsNode(is.Body, as)
-					e := unparen(is.Cond)
-					neg := false
-					if u, ok := e.(*ast.UnaryExpr); ok && u.Op == token.NOT {
-						e, neg = unparen(u.X), true
-					}
-					if objOf(info, e) == flag {
-						if inBody != neg {
-							cond = 1
-						} else {
-							cond = -1
-						}
-					}
-				}
-				switch v.String() {
-				case "1":
-					if cond == -1 {
-						okAll = false
-					}
-					plus = true
-				case "-1":
-					if cond != -1 {
-						okAll = false
-					}
-					minus = true
-				default:
-					okAll = false
-				}
-			}
-			return true
-		})
-		return okAll && plus && minus
-	}
-	n := 0
-	if at2 != nil {
-		for _, arg := range at2.Args {
-			if m, ok := unparen(arg).(*ast.BinaryExpr); ok && m.Op == token.MUL {
-				for _, f := range []ast.Expr{m.X, m.Y} {
-					if o := objOf(info, f); o != nil && signOK(o) {
-						n++
-					}
-				}
-			}
-		}
-	}
-	if n == 2 {
-		c.OK("C08.R5", cons, call.Pos(), "θ comes from %s, which takes atan2 of coordinates multiplied by ±1 following the flag %s = (%s ≥/> 0)", h.Name(), flag.Name(), coneN.Name())
-	} else {
-		c.Bad("C08.R5", cons, call.Pos(), "the helper %s takes the polar angle without mirroring the coordinates when the cone constant %s is negative", h.Name(), coneN.Name())
-	}
-}
